@@ -2170,6 +2170,9 @@ class Version(Formatter, level=4, fmt="%m_%n_%c"):
                     return value.replace(letter, rep)
             if re.match(rf"{rep}[-_.]?[0-9]+", value):
                 return value
+        if re.match(r"-[0-9]+", value):
+            # PEP 440 implicit post release that the ``%p`` pattern admits.
+            return value
         raise FormatterValueError(
             f"Convert prefix dose not valid for value `{value}`."
         )
